@@ -412,6 +412,12 @@ def gen_fault_entry(rng, kind, sid, tbl, exclude=()):
             ]
         if {"lat", "lon"} <= have:
             opts += [("qartod", "location_test", {"bbox": [0, 1, 2]})]
+        # a value the function refuses *and* that cannot be copied (a dict view, a generator, a lock): Python-object configs only
+        opts += [
+            ("qartod", "gross_range_test", {"fail_span": {"__obj__": "dict_values", "of": [0, 10]}}),
+            ("qartod", "gross_range_test", {"fail_span": [0, 10], "suspect_span": {"__obj__": "generator", "of": [1, 2]}}),
+            ("qartod", "spike_test", {"suspect_threshold": 1, "method": {"__obj__": "lock"}}),
+        ]
         opts = [o for o in opts if (o[0], o[1]) not in exclude]
         if not opts:
             return None
@@ -437,7 +443,8 @@ def gen_fault_entry(rng, kind, sid, tbl, exclude=()):
         module, test, params = rng.pick(opts)
         return {"sid": sid, "module": module, "test": test, "params": params, "role": "F4"}
     if kind == "F5":
-        ghost = rng.pick(("ghost", "v9", "V1"))
+        # absent ids, some of which a label-based look-up might still "find" (virtual datetime fields, dimension names)
+        ghost = rng.pick(("ghost", "v9", "V1", "time.hour", "time.dayofyear", "v1.x", "obs2", "obs", "time.nope"))
         e = gen_healthy_entry(rng, ghost, tbl)
         e["role"] = "F5"
         return e
